@@ -273,7 +273,7 @@ def run(ctx):
     ctx.obligation("correspondence:vobject-behaviour-tables", not diffs, "\n".join(diffs))
 
     # ------------------------------------------------------------ codec suites (Model/ContentLine.v)
-    n = ctx.n(350, 4000)
+    n = ctx.n(240, 3000)
     logical = [rand_logical(rng, g) for _ in range(n)]
     corr(ctx, "fold", "fold_line", [(s, real_fold(vb, s)) for s in logical], enc_str, enc_str, "eqs",
          nontrivial=lambda i, o: len(i) >= 75)
@@ -295,7 +295,7 @@ def run(ctx):
 
     # ------------------------------------------------------------ read_components text clean-ups
     photo_lines = []
-    for _ in range(ctx.n(150, 1500)):
+    for _ in range(ctx.n(120, 1200)):
         head = rng.choice(["PHOTO", "photo", "Photo", "item1.PHOTO", "PHOTOS", "X-PHOTO", "LOGO"])
         pars = "".join(rng.choice([";ENCODING=b", ";encoding=B", ";TYPE=JPEG", ";ENCODING=base64", ";ENCODING=bb", ";X=\"a:b\"", ";VALUE=uri", ""]) for _ in range(rng.randint(0, 3)))
         val = rng.choice(["data:image/jpeg;base64,", "DATA:image/png;BASE64,", "data:;base64,", "data:image/jpeg,base64,", "data:a;b;base64,", "", "data:image/jpeg;base64",
@@ -308,7 +308,7 @@ def run(ctx):
     # ------------------------------------------------------------ the whole single-object pipeline, byte for byte
     gc = X.Gen(rng, canonical=True)
     put_cases = []
-    for i in range(ctx.n(220, 3000)):
+    for i in range(ctx.n(150, 2000)):
         card = rng.random() < 0.3
         tree = gc.card_object("uid-%d" % i) if card else gc.cal_object("uid-%d" % i)
         if rng.random() < 0.25 and not card:
@@ -329,7 +329,7 @@ def run(ctx):
          nontrivial=lambda i, o: o is not None and (len(i) != len(o) or "\r\n " in o))
     # a cache miss recomputes the text from the stored file: must be the stored text (model: reload_model)
     corr(ctx, "reload_model", "reload_model", [(o, real_put_pipeline(ritem, o, "VADDRESSBOOK" if "BEGIN:VCARD" in o else "VCALENDAR"))
-                                               for _, o in accepted[:ctx.n(120, 1500)]], enc_str, enc_opt(enc_str), "eq_os")
+                                               for _, o in accepted[:ctx.n(70, 800)]], enc_str, enc_opt(enc_str), "eq_os")
     ctx.samples += [dict(upload=t[:400], stored=(o or "")[:400]) for t, o in put_cases[:2]]
     for k, v in list(g.features.items()) + list(gc.features.items()):
         ctx.count("grammar:" + k, v)
